@@ -111,7 +111,7 @@ SB_CONFIGS = None
 
 def sb_configs(tier):
     # includes slot lengths that do not divide a day (7, 11, 13, 25, 35, 50, 55 min): whole-day arithmetic shortcuts break there
-    Ls = [1, 5, 7, 10, 11, 13, 15, 20, 25, 30, 35, 50, 55, 60] if tier == "thorough" else [5, 7, 15, 25, 50, 60]
+    Ls = [0.5, 1, 2.5, 5, 7, 7.5, 10, 11, 13, 15, 20, 25, 30, 35, 50, 55, 60] if tier == "thorough" else [5, 7, 7.5, 15, 25, 50, 60]
     offs = [(0, 0), (8, 13)]
     spans = [180, 1440 + 37, 2 * 1440, 3 * 1440 + 11] if tier == "thorough" else [180, 1440 + 37]
     return [(L, off, span) for L in Ls for off in offs for span in spans]
@@ -134,7 +134,7 @@ def sb_grid(cfg):
     from scriptplan.scheduler.scoreboard import Scoreboard
 
     L, (oh, om), span = cfg
-    gran = L * 60
+    gran = int(round(L * 60))   # L may be a fraction of a minute (7.5 min = 450 s)
     start = BASE + timedelta(hours=oh, minutes=om)
     end = start + timedelta(minutes=span)
     sb = Scoreboard(start, end, gran, 2)
